@@ -100,7 +100,7 @@ func C02Scenarios() []*Plan {
 	p = c02Base("reorg depth 1, batch 1", 1, 1)
 	p.Decls = []*model.Decl{logDecl("ig0", 6, true)}
 	p.Content.Events = []EventSpec{{Event: transferEvent()}}
-	p.ScriptChain = []ScriptedChain{{AfterOK: 3, Src: "s0", Action: "reorg", Depth: 1, NewLen: 2}}
+	p.ScriptChain = []ScriptedChain{{AtPos: 8, Src: "s0", Action: "reorg", Depth: 1, NewLen: 2}}
 	p.Faults.MaxReorgs = 1
 	p.Faults.MaxReorgDepth = 1
 	add(p)
@@ -108,7 +108,7 @@ func C02Scenarios() []*Plan {
 	p = c02Base("reorg depth 2, batch 1", 1, 1)
 	p.Decls = []*model.Decl{logDecl("ig0", 5, true)}
 	p.Content.Events = []EventSpec{{Event: transferEvent()}}
-	p.ScriptChain = []ScriptedChain{{AfterOK: 4, Src: "s0", Action: "reorg", Depth: 2, NewLen: 3}}
+	p.ScriptChain = []ScriptedChain{{AtPos: 8, Src: "s0", Action: "reorg", Depth: 2, NewLen: 3}}
 	p.Faults.MaxReorgs = 1
 	p.Faults.MaxReorgDepth = 2
 	add(p)
@@ -116,7 +116,7 @@ func C02Scenarios() []*Plan {
 	p = c02Base("reorg depth 2, batch 3", 3, 1)
 	p.Decls = []*model.Decl{logDecl("ig0", 3, true)}
 	p.Content.Events = []EventSpec{{Event: transferEvent()}}
-	p.ScriptChain = []ScriptedChain{{AfterOK: 2, Src: "s0", Action: "reorg", Depth: 2, NewLen: 3}}
+	p.ScriptChain = []ScriptedChain{{AtPos: 8, Src: "s0", Action: "reorg", Depth: 2, NewLen: 3}}
 	p.Faults.MaxReorgs = 1
 	p.Faults.MaxReorgDepth = 2
 	add(p)
